@@ -133,6 +133,34 @@ func c12Streams() []c12Stream {
 		}
 		return o
 	}()...)
+	// alignment family: every structural element of the following messages (8=, the BodyLength digits,
+	// 10=) is swept across the 4096- and 8192-byte refill points of the internal buffer
+	bigTotal := func(total int) []byte {
+		n := total - len(big(0))
+		for {
+			b := big(n)
+			if len(b) == total {
+				return b
+			}
+			if len(b) > total {
+				n--
+			} else {
+				n++
+			}
+			if n < 0 {
+				return b
+			}
+			if len(big(n)) == len(b) { // cannot hit the size exactly (BodyLength digit count changes)
+				return b
+			}
+		}
+	}
+	for d := -14; d <= 44; d++ {
+		first := bigTotal(4096 - d)
+		add(fmt.Sprintf("align4096%+d", -d), cat(first, tr, hb, tr), first, tr, hb, tr)
+		second := bigTotal(8192 - len(hb) - d)
+		add(fmt.Sprintf("align8192%+d", -d), cat(hb, second, tr, hb), hb, second, tr, hb)
+	}
 	// ill-formed streams: only the differential oracle applies
 	add("bad-length-alpha", cat(hb, []byte("8=FIX.4.2\x019=A\x0135=0\x0110=000\x01"), tr))
 	add("zero-length", cat(hb, []byte("8=FIX.4.2\x019=0\x0135=0\x0110=000\x01"), tr))
